@@ -68,12 +68,13 @@ for _p in ("C15", "C16", "C19"):
     PROFILES[_p] = dict(tags=ALL_TAGS, names=None, weights={})
 
 IGNORE_FILES = [b"out/\n", b"*.log\n", b"out/\n*.log\n", b"sub/\n", b"n.txt\n", b"src/out/\n*.txt\n",
-                b"out\n", b"sub\nlib.go\n", b"src\n"]
+                b"out\n", b"sub\nlib.go\n", b"src\n", b"d e/\n*.log\n", b"k%s/\n", b"d e\n"]
 # the path components an ignore file talks about: they join the history's vocabulary, otherwise most
 # histories would never create a path the patterns apply to
 IGNORE_WORDS = {b"out/\n": [b"out"], b"*.log\n": [b"a.log", b"a.logx"], b"out/\n*.log\n": [b"out", b"a.log"],
                 b"sub/\n": [b"sub"], b"n.txt\n": [b"n.txt"], b"src/out/\n*.txt\n": [b"src", b"out", b"n.txt"],
-                b"out\n": [b"out", b"src"], b"sub\nlib.go\n": [b"sub", b"lib.go", b"lib"], b"src\n": [b"src", b"a"]}
+                b"out\n": [b"out", b"src"], b"sub\nlib.go\n": [b"sub", b"lib.go", b"lib"], b"src\n": [b"src", b"a"],
+                b"d e/\n*.log\n": [b"d e", b"a.log"], b"k%s/\n": [b"k%s"], b"d e\n": [b"d e", b"d"]}
 
 
 def relevant(prop, step, diff):
